@@ -289,7 +289,9 @@ def _body(ctx):
                                         {'_row': kcall.params[1], '_rn': kcall.params[2]}) is not None
     run.check(okc, 'KEY', kcall.where, kcall.qualname, "key_spec.format(**{**row, '#': row_number})", 'the key is not rendered from the row and its number')
     run.check(has_stmt('source_key = KeyCalc(source_key)', aux.node) and
-              has_stmt('target_key = KeyCalc(target_key) if target_key is not None else target_key', aux.node), 'KEY', aux.where,
+              (has_stmt('if target_key is not None:\n    target_key = KeyCalc(target_key)\nelse:\n    target_key = target_key', aux.node) or
+               has_stmt('if target_key is not None:\n    target_key = KeyCalc(target_key)', aux.node) or
+               has_stmt('if target_key is None:\n    target_key = target_key\nelse:\n    target_key = KeyCalc(target_key)', aux.node)), 'KEY', aux.where,
               aux.qualname, 'both keys rendered by KeyCalc', 'source and target keys are rendered by different code')
 
     run.rule('ORD', 'INDEX-BEFORE-TARGET: the target branch asserts that the source was indexed; mode is one of the three documented '
